@@ -51,7 +51,7 @@ class Handler(object):
   def _do(self, arg):
     r = self.req
     kind = (r.spec or {}).get('kind', 'ok')
-    if kind == 'declared' and r.method == 'risky':
+    if kind == 'declared' and r.method in ('risky', 'guard'):
       raise self.m.Oops('declared:%s' % (r.call_id,))
     if kind == 'appexc':
       raise RuntimeError('handler failed')
@@ -67,6 +67,10 @@ class Handler(object):
     return self.echo(s)
 
   def poke(self, s):
+    self._do(s)
+    return None
+
+  def guard(self, s):
     self._do(s)
     return None
 
